@@ -1,6 +1,6 @@
 (* Property C19 — routes installed by the routing daemon mirror its tables; prefix logs replicate.
    Only theorem statements closed by `exact`, each followed by Print Assumptions. *)
-From DvFib Require Import U64 GenConsts PfxLog PfxLogProofs DvFib DvFibProofs.
+From DvFib Require Import U64 GenConsts ConstFacts PfxLog PfxLogProofs PfxLogLive DvFib DvFibProofs.
 Open Scope N_scope.
 
 (* log_replication. For every initial sequence number s0, every history of publisher operations (announce, withdraw;
@@ -31,17 +31,44 @@ Theorem peer_ok_is_spec : forall pub_set pub_seq known peer_set,
 Proof. exact peer_ok_spec. Qed.
 Print Assumptions peer_ok_is_spec.
 
+(* The two snapshot thresholds, AS TRANSLATED from the source on this run, fit together: when the publisher decides not to
+   snapshot, its latest snapshot is at most fetch_threshold publications old; the fetcher asks for a snapshot exactly when
+   it is more than fetch_threshold behind. (Today's publisher test `pt.snapshotAt-seq >= 100` wraps around in uint64
+   arithmetic and therefore fires after every publication; that satisfies the first clause trivially.) *)
+Theorem thresholds_fit :
+  (forall s seq, s <= seq -> seq < two64 -> seq - s <= fetch_threshold + 1 ->
+     pub_snap_test s seq = false -> seq - s <= fetch_threshold) /\
+  (forall latest known, known < latest -> latest < two64 ->
+     (fetch_snap_test latest known = true <-> fetch_threshold < latest - known)).
+Proof. exact (conj pub_test_lag fetch_test_gap). Qed.
+Print Assumptions thresholds_fit.
+
+(* peer_catches_up (progress, complements log_replication). After any history whose sync notifications carry numbers
+   the publisher really had, with the publisher started at 0 or above the threshold (the daemon starts at boot time in
+   ms) and below 2^64: once the peer settles (outstanding Interest expires, route to the publisher present, current
+   number heard) fetch_threshold + 2 answered fetches bring Known to the publisher's number and the peer's set to the
+   announced set — however far behind the late joiner was. *)
+Theorem peer_catches_up : forall s0 evs,
+  (s0 = 0 \/ fetch_threshold < s0) -> hist_ok (pub_new s0, peer_new) evs ->
+  let st := run s0 evs in
+  pb_seq (fst st) < two64 ->
+  let st' := rounds (N.to_nat fetch_threshold + 2) (settle st) in
+  fst st' = fst st /\ j_known (snd st') = pb_seq (fst st) /\ set_eq (j_set (snd st')) (pb_set (fst st)).
+Proof. exact peer_catches_up_l. Qed.
+Print Assumptions peer_catches_up.
+
 (* installed_mirrors_tables. `frun me evs` runs a history of events from the empty installer: SetTables replaces the
    RIB view (per destination router: best / second-best next hop and costs), the neighbour-face table and the prefix
    table by ARBITRARY new values (so it covers every possible table change: cost changes, destinations becoming
    unreachable, next hops swapping, neighbours changing face or disappearing, announcements, withdrawals, multi-homed
-   prefixes, duplicates, permutations of Go map order); FibUpdate runs the installer (fibUpdate: build the fibEntries
-   map, UpdateH with prevCost diffing per prefix, mark, RemoveUnmarked).  s_rt is the reference route table: the fold
+   prefixes, duplicates, permutations of Go map order); FibUpdate ord1 ord2 runs the installer (fibUpdate: build the
+   fibEntries map, UpdateH with prevCost diffing per prefix, mark, RemoveUnmarked) with its two map iterations taken in
+   ANY order (keys in ord1 / ord2 first).  s_rt is the reference route table: the fold
    of EVERY register/unregister command emitted since the start.  After any history that ends with a FibUpdate it
    equals `desired`: for each prefix p and face f the lowest cost among the best and finite second-best next hops
    (mapped to faces) of the reachable remote routers that announce p or own it as routing prefix; nothing else. *)
-Theorem installed_mirrors_tables : forall me evs p f,
-  let s := frun me (evs ++ [FibUpdate]) in
+Theorem installed_mirrors_tables : forall me evs ord1 ord2 p f,
+  let s := frun me (evs ++ [FibUpdate ord1 ord2]) in
   rt_lookup (s_rt s) (p, f) = desired (s_tab s) p f.
 Proof. exact installed_mirrors_tables_l. Qed.
 Print Assumptions installed_mirrors_tables.
@@ -64,9 +91,9 @@ Example c19_fib_example :
   let r1 := {| re_name := 1; re_pfx := 101; re_nh1 := 5; re_l1 := 1; re_nh2 := 6; re_l2 := 3 |} in
   let r2 := {| re_name := 2; re_pfx := 102; re_nh1 := 6; re_l1 := 2; re_nh2 := 0; re_l2 := 16 |} in
   let r2' := {| re_name := 2; re_pfx := 102; re_nh1 := 0; re_l1 := 16; re_nh2 := 0; re_l2 := 16 |} in
-  let s1 := frun 9 [SetTables [r1; r2] [(5, 50); (6, 60)] [(1, [70]); (2, [70])]; FibUpdate] in
-  let s2 := frun 9 [SetTables [r1; r2] [(5, 50); (6, 60)] [(1, [70]); (2, [70])]; FibUpdate;
-                    SetTables [r1; r2'] [(5, 50); (6, 61)] [(1, []); (2, [70])]; FibUpdate] in
+  let s1 := frun 9 [SetTables [r1; r2] [(5, 50); (6, 60)] [(1, [70]); (2, [70])]; FibUpdate [] []] in
+  let s2 := frun 9 [SetTables [r1; r2] [(5, 50); (6, 60)] [(1, [70]); (2, [70])]; FibUpdate [70] [];
+                    SetTables [r1; r2'] [(5, 50); (6, 61)] [(1, []); (2, [70])]; FibUpdate [102; 101] [70; 102]] in
   rt_lookup (s_rt s1) (70, 60) = Some 2 /\ rt_lookup (s_rt s1) (70, 50) = Some 1 /\ rt_lookup (s_rt s1) (102, 60) = Some 2 /\
   rt_lookup (s_rt s2) (70, 60) = None /\ rt_lookup (s_rt s2) (70, 50) = None /\ rt_lookup (s_rt s2) (102, 60) = None /\
   rt_lookup (s_rt s2) (101, 61) = Some 3 /\ rt_lookup (s_rt s2) (101, 60) = None /\ mirrorsb (s_tab s2) (s_rt s2) = true.
@@ -78,3 +105,12 @@ Example c19_pfx_example :
                    NetAnswer None; JDeliver; PAnnounce 5; NetAnswer None; JDeliver] in
   pb_set (fst st) = [5; 2] /\ j_known (snd st) = 3 /\ j_set (snd st) = [2] /\ pb_seq (fst st) = 4.
 Proof. vm_compute. repeat split. Qed.
+
+(* non-vacuity of peer_catches_up: 121 publications, a peer that has fetched nothing *)
+Example c19_live_example :
+  let evs := flat_map (fun i => [PAnnounce (N.of_nat i); PWithdraw (N.of_nat i)]) (seq 1 60) ++ [PAnnounce 7; JSync 3] in
+  hist_ok (pub_new 0, peer_new) evs /\ pb_seq (fst (run 0 evs)) = 121 /\
+  j_known (snd (settle (run 0 evs))) = 0 /\
+  j_known (snd (rounds (N.to_nat fetch_threshold + 2) (settle (run 0 evs)))) = 121 /\
+  j_set (snd (rounds (N.to_nat fetch_threshold + 2) (settle (run 0 evs)))) = [7].
+Proof. vm_compute. repeat split; try discriminate; auto. right. discriminate. Qed.
